@@ -432,6 +432,9 @@ func runHnsw(c *Ctx) {
 	nWide := c.ArgInt("wide", c.Pick(150, 3000))
 	maxOps := c.ArgInt("ops", c.Pick(50, 160))
 	props := []string{"C01"}
+	if p := c.Args["props"]; p != "" {
+		props = strings.Split(p, ",")
+	}
 
 	// corpus: the two D1 witnesses (entry point handed to a tombstone / to nil)
 	{
